@@ -212,6 +212,13 @@ T_Resumed == /\ Ev("resumed")
              /\ cutSeen' = FALSE /\ nErr' = 0 /\ evs' = <<>> /\ pend' = <<>> /\ oCli' = <<>> /\ oHdl' = <<>> /\ oCalls' = <<>>
              /\ l' = l + 1 /\ UNCHANGED <<tid, sm, mode, allHdl, dead, taint10, stats>>
 
+\* the resumption was refused: a fresh session was bound and stream management enabled again
+T_Rebound == /\ Ev("rebound")
+             /\ verdicts' = IF dead THEN verdicts ELSE AddV(JudgeCut(E, cands[1].st))
+             /\ cands' = [i \in 1..Len(cands) |-> [st |-> S!Fresh, renum |-> cands[i].renum]]
+             /\ cutSeen' = FALSE /\ nErr' = 0 /\ evs' = <<>> /\ pend' = <<>> /\ oCli' = <<>> /\ oHdl' = <<>> /\ oCalls' = <<>>
+             /\ l' = l + 1 /\ UNCHANGED <<tid, sm, mode, allHdl, dead, taint10, stats>>
+
 T_Loops == /\ Ev("loops")
            /\ verdicts' = IF dead THEN verdicts ELSE AddV(
                  (IF E.recvexit >= 1 THEN <<>> ELSE <<V("C12", "receive-loop-stops", "recv", [loops |-> E])>>) \o
@@ -244,7 +251,7 @@ T_End == /\ Ev("end")
 TraceInit == /\ l = 1 /\ tid = 0 /\ sm = FALSE /\ mode = "lock" /\ cands = Cands0(FALSE) /\ pend = <<>> /\ oCli = <<>> /\ oHdl = <<>>
              /\ oCalls = <<>> /\ allHdl = <<>> /\ nErr = 0 /\ evs = <<>> /\ cutSeen = FALSE /\ dead = FALSE /\ taint10 = FALSE /\ verdicts = 0 /\ VL!InitV
              /\ stats = [scen |-> 0, barriers |-> 0]
-TraceNext == T_Reset \/ T_Pre \/ T_LostEv \/ T_Resumed \/ T_Srv \/ T_Send \/ T_Call \/ T_Hdl \/ T_Cli \/ T_ErrCb \/ T_Event \/ T_Cut \/ T_Quiet \/ T_Loops
+TraceNext == T_Reset \/ T_Pre \/ T_LostEv \/ T_Resumed \/ T_Rebound \/ T_Srv \/ T_Send \/ T_Call \/ T_Hdl \/ T_Cli \/ T_ErrCb \/ T_Event \/ T_Cut \/ T_Quiet \/ T_Loops
              \/ T_Leak \/ T_Crash \/ T_Skip \/ T_End
 TraceSpec == TraceInit /\ [][TraceNext]_tvars
 =============================================================================
